@@ -548,7 +548,7 @@ class Emitter:
                     a = "a_%d" % self.nassert
                     r = self.recv
                     self.ed.insert(self.ix.st[s.i0].s, "let ghost %s = *%s;\n            " % (a, r))
-                    self.ed.insert(self.ix.st[s.i1].e, "\n            proof { assert(%s.twf()); assert(forall|k: int| #[trigger] %s.mk(k) ==> %s.mk(k)); }" % (r, a, r))
+                    self.ed.insert(self.ix.st[s.i1].e, "\n            proof { assert(%s.twf()); assert(%s.ewf()); assert(forall|k: int| #[trigger] %s.mk(k) ==> %s.mk(k)); }" % (r, r, a, r))
                 self.walk(s.then, opened, closed)
                 if s.els:
                     self.walk(s.els, opened, closed)
@@ -559,44 +559,45 @@ class Emitter:
         self.nloop += 1
         k = self.nloop
         o = "old(%s)" % r
+        from merge import macro_clauses
         B = self.bound()
-        inv = ["%s.stepb(%s, %s)" % (r, o, B)]
+        inv = ["%s,   // %s" % ec for ec in macro_clauses("STEPB", [r, o, B])]
         e = "%s.rstack()" % r
         for v in reversed(opened):
-            inv.append("%s.len() > 0 && %s.last() == %s.0 && %s <= %s.0" % (e, e, v, B, v))
+            inv.append("%s.len() > 0 && %s.last() == %s.0 && %s <= %s.0,   // [C02] %s is the innermost open node here" % (e, e, v, B, v, v))
             e += ".drop_last()"
-        inv.append("%s == %s.rstack()" % (e, o))
-        inv += ["%s.pos >= p_%d" % (r, k), "(%s.pos == p_%d ==> %s.current == c_%d)" % (r, k, r, k)]
+        inv.append("%s == %s.rstack(),   // [C02] below them the stack is the caller's" % (e, o))
+        inv += ["%s.pos >= p_%d,   // [C03]" % (r, k), "(%s.pos == p_%d ==> %s.current == c_%d),   // [C03]" % (r, k, r, k)]
         if self.f.has_ret:
-            inv.append("%s.in_ordered_choice == %s.in_ordered_choice" % (r, o))
+            inv.append("%s.in_ordered_choice == %s.in_ordered_choice,   // [C08]" % (r, o))
         else:
-            inv.append("!%s.in_ordered_choice" % r)
+            inv.append("!%s.in_ordered_choice,   // [C08]" % r)
         if self.f.parent is not None and "lhs" in closed and closed["lhs"] == 0:
-            inv.append("lhs.0 == lhs0.0")
+            inv.append("lhs.0 == lhs0.0,   // [C02]")
         for v in closed:
             if uses_after(ix, self.f, s.i_kw, v):
                 drops = max(0, len(opened) - closed[v])
                 stk = "%s.rstack()" % r + ".drop_last()" * drops
-                inv.append("%s.mk(%s.0 as int) && top_of(%s) < %s.0 && %s <= %s.0" % (r, v, stk, v, B, v))
+                inv.append("%s.mk(%s.0 as int) && top_of(%s) < %s.0 && %s <= %s.0,   // [C01,C02] %s is still a sibling boundary" % (r, v, stk, v, B, v, v))
         ent = self.interp.loop_entry.get(id(s))
         if ent is not None and not ent[1] and len(ent[0]) < len(self.alphabet):
             # without progress since the function was entered, the loop is reached only on these tokens
-            inv.append("(%s.pos == %s.pos ==> %s)" % (r, o, tokset("%s.current" % r, ent[0], self.alphabet)))
+            inv.append("(%s.pos == %s.pos ==> %s),   // [C03]" % (r, o, tokset("%s.current" % r, ent[0], self.alphabet)))
         exits = self.interp.loops.get(id(s), {})
         P = {t for t in self.alphabet if exits.get(t) == {"P"}}
         N = {t for t in self.alphabet if exits.get(t) == {"N"}}
         ens = []
         if P:
-            ens.append("%s ==> %s.pos > p_%d" % (tokset("c_%d" % k, P, self.alphabet), r, k))
+            ens.append("%s ==> %s.pos > p_%d,   // [C03]" % (tokset("c_%d" % k, P, self.alphabet), r, k))
         if N:
-            inv.append("%s ==> %s.pos == p_%d" % (tokset("c_%d" % k, N, self.alphabet), r, k))
+            inv.append("%s ==> %s.pos == p_%d,   // [C03]" % (tokset("c_%d" % k, N, self.alphabet), r, k))
         ind = " " * 12
         pre = "let ghost p_%d = %s.pos; let ghost c_%d = %s.current;\n%s" % (k, r, k, r, ind)
         self.ed.insert(st[s.i_kw].s, pre)
-        txt = "\n%s  invariant %s,\n" % (ind, (",\n%s    " % ind).join(inv))
+        txt = "\n%s  invariant\n%s    %s\n" % (ind, ind, ("\n%s    " % ind).join(inv))
         if ens:
-            txt += "%s  ensures %s,\n" % (ind, (",\n%s    " % ind).join(ens))
-        txt += "%s  decreases %s.rem()\n%s" % (ind, r, ind)
+            txt += "%s  ensures\n%s    %s\n" % (ind, ind, ("\n%s    " % ind).join(ens))
+        txt += "%s  decreases %s.rem()   // [C03]\n%s" % (ind, r, ind)
         self.ed.insert(st[s.i_brace].s, txt)
         self.ed.insert(st[s.i_brace].e, "\n%sbroadcast use lemma_span_ok, lemma_mk_bound;" % ind)
 
@@ -607,37 +608,42 @@ class Emitter:
         return "old(%s).nlen()" % self.recv
 
     def emit_spec(self, body, external=False):
+        """One clause per line, each tagged with the properties it carries."""
+        from merge import macro_clauses
         ix, st, f, r = self.ix, self.ix.st, self.f, self.recv
         o = "old(%s)" % r
         fin = "final(%s)" % r
         P = self.interp.P.get(self.key, set())
         N = self.interp.N.get(self.key, set())
         opt = f.has_ret      # rule reachable from an ordered choice: returns Option<()>, None = backtrack
-        req = ["%s.wf()" % o]
+        req = macro_clauses("WF", [o])
         C = self.interp.C.get(self.key, set())
         if C and len(C) < len(self.alphabet):
-            req.append(tokset("%s.current" % o, C, self.alphabet))
+            req.append((tokset("%s.current" % o, C, self.alphabet), "[C03] the rule is only entered on these tokens (checked at every call site)"))
         if f.parent is not None:
-            req.append("%s.mk(lhs.0 as int)" % o)
-            req.append("top_of(%s.rstack()) < lhs.0" % o)
-            ens = ["%s.stepb(%s, lhs.0 as int)" % (fin, o), "%s.rstack() == %s.rstack()" % (fin, o)]
+            req.append(("%s.mk(lhs.0 as int)" % o, "[C01,C02] lhs is a sibling boundary"))
+            req.append(("top_of(%s.rstack()) < lhs.0" % o, "[C02] lhs lies above the innermost open node"))
+            ens = macro_clauses("STEPB", [fin, o, "lhs.0 as int"])
+            ens.append(("%s.rstack() == %s.rstack()" % (fin, o), "[C02] every node opened is closed again"))
         else:
-            ens = ["%s.step(%s)" % (fin, o)]
+            ens = macro_clauses("STEP", [fin, o])
         if P:
-            ens.append("%s ==> %s.pos > %s.pos" % (tokset("%s.current" % o, P, self.alphabet), fin, o))
+            ens.append(("%s ==> %s.pos > %s.pos" % (tokset("%s.current" % o, P, self.alphabet), fin, o), "[C03] progress on these tokens (termination of callers' loops)"))
         if N:
-            ens.append("%s ==> %s.pos == %s.pos" % (tokset("%s.current" % o, N, self.alphabet), fin, o))
+            ens.append(("%s ==> %s.pos == %s.pos" % (tokset("%s.current" % o, N, self.alphabet), fin, o), "[C03] nothing is consumed on these tokens"))
         if opt:
             # backtracking is requested only while an ordered choice is being tried
-            ens = ["(r is Some ==> %s)" % e for e in ens]
-            ens.append("(r is None ==> %s.in_ordered_choice && %s.wf() && %s.same_input(%s))" % (o, fin, fin, o))
-            ens.append("%s.in_ordered_choice == %s.in_ordered_choice" % (fin, o))
+            ens = [("(r is Some ==> %s)" % e, c) for (e, c) in ens]
+            ens.append(("(r is None ==> %s.in_ordered_choice && %s.wf() && %s.same_input(%s))" % (o, fin, fin, o), "[C08] backtracking is only requested while a choice is being tried"))
+            ens.append(("%s.in_ordered_choice == %s.in_ordered_choice" % (fin, o), "[C08]"))
         else:
-            req.append("!%s.in_ordered_choice" % o)
-            ens.append("!%s.in_ordered_choice" % fin)
-        spec = "\n        requires %s,\n        ensures %s,\n" % (", ".join(req), ",\n            ".join(ens))
+            req.append(("!%s.in_ordered_choice" % o, "[C08] not inside an undoable attempt"))
+            ens.append(("!%s.in_ordered_choice" % fin, "[C08]"))
+        ind = "\n            "
+        spec = "\n        requires" + ind + ind.join("%s,   // %s" % ec for ec in req)
+        spec += "\n        ensures" + ind + ind.join("%s,   // %s" % ec for ec in ens) + "\n"
         if not external:
-            spec += "        decreases %s.rem(), %dint\n    " % (o, self.rank.get(self.key, 0))
+            spec += "        decreases %s.rem(), %dint   // [C03]\n    " % (o, self.rank.get(self.key, 0))
         return spec
 
     def name_ret(self):
@@ -698,7 +704,7 @@ def annotate(ix, ed, report, skeleton_only=False):
         if f.parent is not None:
             start += "        let ghost lhs0 = lhs;\n"
         if re.search(r"\.\s*(error_since_advance|in_ordered_choice)\s*=[^=]", txt):
-            start += "        proof { reveal(Parser::twf); reveal(Parser::mk); }\n"
+            start += "        proof { reveal(Parser::twf); reveal(Parser::ewf); reveal(Parser::mk); }\n"
         ed.insert(st[f.i_body].e, start)
         closed0 = {"lhs": 0} if f.parent is not None else {}
         em.walk(body, [], closed0)
